@@ -3,8 +3,8 @@ package main
 func init() {
 	register(propSpec{
 		ID: "C16", Pkg: "props/c16", NeedCLI: true, Isolated: true, RaceInQuick: true,
-		Rule: "cases: an ORF = ATG + 8-40 sense codons + stop; 1-24 input sequences, each = random flank (0-30 nt) + a copy of one of 1-3 ORFs, verbatim or with 1-10 % substitutions and sometimes one inserted/deleted base after the first two codons (kept intact so that a positive alignment exists) + random flank, reverse-complemented at random when reverse is on; references given explicitly (1-3) or not at all; translate on/off x reverse on/off x cut-end on/off x 3 genetic codes; each case is phased with 1 worker and with one or two more counts drawn from {2,3,8,16,32}; one case in eight (translate mode) holds a sequence of 1-4 nucleotides (error case). ORF search: 1-5 sequences of 3-30 tokens rich in ATG, stop codons, their reverse complements and single bases (overlapping reading frames), Sequence.LongestORF and SeqBag.LongestORF with reverse on/off. Command line: goalign phase / phasent (--unaligned --ref-orf --reverse --cut-end --genetic-code -t N, outputs, --aa-output, --nt-output and the log read back and matched by name) and goalign orf. " +
-			"Oracle, per worker count: the channel is closed within the watchdog limit (otherwise the process is killed and the case re-run alone); without reported error exactly one result per input name; NtSeq = the input (or, only when reverse is on, its reverse complement) from Position to the end (to any cut when cut-end is on); CodonSeq = NtSeq minus 0-2 leading bases and its translation by NCBI table 1/2/5 (written in the harness) = AaSeq; if the single reference (given, or the unique naive longest ORF when none is given) occurs verbatim exactly once in the strands searched - and, translate mode, its translation occurs once in the 3/6 frame translations and looks like a protein - Position is its offset; the multiset of results is identical for every worker count; sequences and references are byte-identical afterwards; in an error case an error is reported and the channel is still closed. LongestORF: compared with a scan of every ATG to its first in-frame stop over all sequences and allowed strands: same maximal length, the returned residues are such a frame and occur in the input; error / (-1,-1) exactly when none exists. A race-detector build runs the error-free cases under GOMAXPROCS 4, 1, 2, 16. " +
+		Rule: "cases: an ORF = ATG + 8-40 sense codons + stop; 1-24 input sequences, each = random flank (0-30 nt) + a copy of one of 1-3 ORFs, verbatim or with 1-10 % substitutions and sometimes one inserted/deleted base after the first two codons (kept intact so that a positive alignment exists) + random flank, reverse-complemented at random when reverse is on; references given explicitly (1-3) or not at all; translate on/off x reverse on/off x cut-end on/off x 3 genetic codes; each case is phased with 1 worker and with one or two more counts drawn from {2,3,8,16,32}; one case in eight (translate mode) holds a sequence of 1-4 nucleotides (error case); in two cases of three all sequences (and, independently, the references) are rewritten as upper-case RNA, lower-case DNA, lower-case RNA or a soft-masked mixture of case and T/U. ORF search: 1-5 sequences of 3-30 tokens rich in ATG, stop codons, their reverse complements and single bases (overlapping reading frames), in the same five spellings, Sequence.LongestORF and SeqBag.LongestORF with reverse on/off. Command line: goalign phase / phasent (--unaligned --ref-orf --reverse --cut-end --genetic-code -t N, outputs, --aa-output, --nt-output and the log read back and matched by name) and goalign orf. " +
+			"Oracle, per worker count: the channel is closed within the watchdog limit (otherwise the process is killed and the case re-run alone); without reported error exactly one result per input name; NtSeq = the input (or, only when reverse is on, its reverse complement) from Position to the end (to any cut when cut-end is on); CodonSeq = NtSeq minus 0-2 leading bases and its translation by NCBI table 1/2/5 (written in the harness) = AaSeq; if the single reference (given, or the unique naive longest ORF when none is given) occurs verbatim exactly once in the strands searched - and, translate mode, its translation occurs once in the 3/6 frame translations and looks like a protein - Position is its offset; the multiset of results is identical for every worker count; sequences and references are byte-identical afterwards; in an error case an error is reported and the channel is still closed. All relations are evaluated on the case-folded, U->T form; residues returned from the forward strand must be the original characters (on the reverse strand the observed complement convention, case kept and DNA letters, or - counted - any other). LongestORF: compared with a scan of every ATG to its first in-frame stop over all sequences and allowed strands: same maximal length, the returned residues are such a frame and occur in the input; error / (-1,-1) exactly when none exists. A race-detector build runs the error-free cases under GOMAXPROCS 4, 1, 2, 16. " +
 			"Non-trivial: >=2 workers and >=4 sequences, or a reported start that is not a multiple of 3 (phasing); two reading frames in different frames overlap (ORF search). distinct = distinct JSON form of the case",
 		Assumptions: []string{
 			"results with Err != nil are the statement's 'unless an alignment error is reported': their sequence is not judged, and when any error is reported the count and worker-independence relations are skipped (counted in classes error-case / error-reported-unexpected)",
